@@ -94,9 +94,15 @@ func clip(s string) string {
 	return s
 }
 
+// crlf is the same file saved with Windows line endings.
+func crlf(src string) string {
+	return strings.ReplaceAll(strings.ReplaceAll(src, "\r\n", "\n"), "\n", "\r\n")
+}
+
 func TestPropSeeds(t *testing.T) {
 	for _, sd := range corpus.Seeds() {
 		check(t, sd.Text, sd.Name+": ")
+		check(t, crlf(sd.Text), sd.Name+" (CRLF): ")
 	}
 }
 
@@ -105,6 +111,9 @@ func TestPropGenerated(t *testing.T) {
 	rapid.Check(t, func(t *rapid.T) {
 		f := g.Draw(t, "file")
 		src, _ := tgen.Print(f, "P")
+		if rapid.IntRange(0, 3).Draw(t, "crlf") == 0 {
+			src = crlf(src)
+		}
 		check(t, src, "")
 	})
 }
